@@ -197,6 +197,9 @@ def _do(c, op, ctx):
     if name == 'evict':
         return fp(c.evict(vals.dec(op['tag']), **_kw(op, ('retry',))))
     if name == 'expire':
+        if op.get('now_shift') is not None:
+            from . import seams
+            return fp(c.expire(now=seams.SIM_TIME.time() + op['now_shift'], **_kw(op, ('retry',))))
         return fp(c.expire(**_kw(op, ('retry',))))
     if name == 'cull':
         return fp(c.cull(**_kw(op, ('retry',))))
